@@ -13,6 +13,8 @@
  *             input; every generated access unit following valid parameter
  *             sets is output
  *   corrupt   arbitrary / damaged octets into the framers (AddressSanitizer)
+ *   startcode3  like h264/h265 on clean streams whose very first octets are a
+ *             3-octet start code (kept apart: see the final report)
  */
 #include "tslab_common.h"
 
@@ -590,7 +592,7 @@ static void h265_misc(struct vh_rng *r, struct es *e, int type, int sc)
 
 /* a clean stream: every AU is recognisable by the standard's first-VCL /
  * parameter set / delimiter rules */
-static struct es *gen_es(struct vh_rng *r, bool h265, int nau)
+static struct es *gen_es(struct vh_rng *r, bool h265, int nau, bool sc3_start)
 {
     struct es *e = tsl_alloc(sizeof(*e));
     e->h265 = h265;
@@ -602,7 +604,9 @@ static struct es *gen_es(struct vh_rng *r, bool h265, int nau)
     bool aud = vh_chance(r, 1, 2);
     bool sei = vh_chance(r, 1, 2);
     uint32_t frame_num = 0, idr_id = vh_below(r, 10), poc = 0;
-    int first_sc = gen_sc(r);
+    /* a 3-octet start code as the very first octets of the stream is the
+     * business of the dedicated mode "startcode3" */
+    int first_sc = sc3_start ? 3 : 4;
     for (int a = 0; a < nau; a++) {
         struct gau *g = &e->aus[e->nau++];
         g->first = e->nnal;
@@ -741,41 +745,117 @@ static int locate_output(bool h265, const struct tsl_rec *o, const uint8_t *in, 
             if (!is_insertable(h265, t)) break;
             if (strip < ns && from == 0) break;
         }
-        size_t len = o->size - from;
-        if (len == 0) { *where = *pos; *strip_bytes = from; return strip; }
-        const uint8_t *q = *pos <= n ? memmem(in + *pos, n - *pos, o->data + from, len) : NULL;
-        if (q) {
-            *where = (size_t)(q - in);
-            *pos = *where + len;
-            *strip_bytes = from;
-            return strip;
+        /* zeros around the boundary may belong to either side */
+        size_t lo = from, hi = from;
+        while (lo > 0 && o->data[lo - 1] == 0 && from - lo < 4) lo--;
+        while (hi < o->size && o->data[hi] == 0 && hi - from < 2) hi++;
+        for (size_t f = lo; f <= hi; f++) {
+            size_t len = o->size - f;
+            if (len == 0) { *where = *pos; *strip_bytes = f; return strip; }
+            const uint8_t *q = *pos <= n ? memmem(in + *pos, n - *pos, o->data + f, len) : NULL;
+            if (q) {
+                *where = (size_t)(q - in);
+                *pos = *where + len;
+                *strip_bytes = f;
+                return strip;
+            }
         }
     }
     return -1;
 }
 
+/* Number of leading NAL offset attributes that are the starts of NAL units
+ * 1, 2, ... of the unit according to the reference Annex B splitter; *ok_p
+ * tells whether all real NAL starts are covered.  What follows that prefix
+ * (except one terminator equal to the unit size, harmless for the iterator)
+ * does not denote NAL units of this access unit. */
+static int real_offsets(const struct tsl_rec *o, bool *ok_p, int *nreal_p)
+{
+    size_t starts[TSL_MAX_NAL + 2];
+    int ns = ref_split_annexb(o->data, o->size, starts, TSL_MAX_NAL + 2);
+    if (ns > TSL_MAX_NAL + 2) ns = TSL_MAX_NAL + 2;
+    int want = ns > 0 ? ns - 1 : 0;     /* offsets expected: starts[1..] */
+    int k = 0;
+    while (k < want && k < o->nb_nal) {
+        /* zero octets between two NAL units may be counted as trailing zeros
+         * of the first or as leading zero / zero_byte of the second (B.1):
+         * any position inside the zero run before 00 00 01 is a NAL start */
+        size_t sc = starts[k + 1];                 /* reference: at most one zero before 00 00 01 */
+        while (!(o->data[sc] == 0 && o->data[sc + 1] == 0 && o->data[sc + 2] == 1)) sc++;
+        size_t lo = sc;
+        while (lo > 0 && o->data[lo - 1] == 0) lo--;
+        if (o->nal[k] < lo || o->nal[k] > sc) break;
+        k++;
+    }
+    if (ok_p) *ok_p = k == want || k == TSL_MAX_NAL;
+    if (nreal_p) *nreal_p = want;
+    return k;
+}
+
+/* true if something else than the optional terminator follows the real offsets */
+static bool has_stale_offsets(const struct tsl_rec *o, int nreal)
+{
+    int k = nreal;
+    if (k < o->nb_nal && o->nal[k] == o->size) k++;
+    return k < o->nb_nal;
+}
+
+static void offsets_str(const struct tsl_rec *o, char *buf, size_t n)
+{
+    buf[0] = 0;
+    for (int k = 0; k < o->nb_nal && k < 14; k++)
+        snprintf(buf + strlen(buf), n - strlen(buf), "%" PRIu64 " ", o->nal[k]);
+}
+
+/* returns false when the unit sequences differ in octets (case abandoned by
+ * the caller); the other categories are reported once each and do not stop
+ * the comparison */
 static void compare_sinks(const char *codec, struct tsl_sink *a, const char *na, struct tsl_sink *b, const char *nb, size_t n)
 {
-    char key[64];
-    snprintf(key, sizeof(key), "c17:%s:cutting-dependent", codec);
+    char key[80];
+#define KEY(x) (snprintf(key, sizeof(key), "c17:%s:cutting-dependent:%s", codec, x), key)
     if (a->n != b->n)
-        vh_violation(key, "%zu access units with cutting '%s' but %zu with cutting '%s' (stream of %zu octets)", a->n, na, b->n, nb, n);
+        vh_violation(KEY("octets"), "%zu access units with cutting '%s' but %zu with cutting '%s' (stream of %zu octets)", a->n, na, b->n, nb, n);
+    bool r_flags = false, r_off = false, r_stale = false, r_hs = false, r_attr = false;
     for (size_t i = 0; i < a->n; i++) {
         struct tsl_rec *x = &a->recs[i], *y = &b->recs[i];
         if (x->size != y->size || memcmp(x->data, y->data, x->size))
-            vh_violation(key, "access unit %zu differs in octets between cuttings '%s' (%zu octets) and '%s' (%zu octets)", i, na, x->size, nb, y->size);
-        if (x->nb_nal != y->nb_nal || memcmp(x->nal, y->nal, sizeof(uint64_t) * (size_t)x->nb_nal))
-            vh_violation(key, "access unit %zu: NAL offsets differ between cuttings '%s' and '%s'", i, na, nb);
-        if (x->flags != y->flags)
-            vh_violation(key, "access unit %zu: flags 0x%x with '%s', 0x%x with '%s'", i, x->flags, na, y->flags, nb);
-        if (x->header_size != y->header_size)
-            vh_violation(key, "access unit %zu: header size differs between cuttings", i);
-        if (x->attr_hash != y->attr_hash)
-            vh_violation(key, "access unit %zu: attributes differ between cuttings '%s' and '%s'", i, na, nb);
+            vh_violation(KEY("octets"), "access unit %zu differs in octets between cuttings '%s' (%zu octets) and '%s' (%zu octets)", i, na, x->size, nb, y->size);
+        if (x->flags != y->flags && !r_flags) {
+            r_flags = true;
+            uint32_t d = x->flags ^ y->flags;
+            const char *w = d & TSL_F_RANDOM ? "flag-random" : d & TSL_F_ERROR ? "flag-error" : d & TSL_F_KEY ? "flag-key" :
+                            d & TSL_F_DISC ? "flag-discontinuity" : "flags";
+            vh_violation_noabort(KEY(w), "access unit %zu of %zu: flags 0x%x with cutting '%s', 0x%x with '%s' (1 start 2 end 4 discontinuity 8 random 16 error 32 key)",
+                                 i, a->n, x->flags, na, y->flags, nb);
+        }
+        int vx = real_offsets(x, NULL, NULL), vy = real_offsets(y, NULL, NULL);
+        char la[240], lb[240];
+        if ((vx != vy || memcmp(x->nal, y->nal, sizeof(uint64_t) * (size_t)vx)) && !r_off) {
+            r_off = true;
+            offsets_str(x, la, sizeof(la)); offsets_str(y, lb, sizeof(lb));
+            vh_violation_noabort(KEY("nal-offsets"), "access unit %zu (%zu octets): NAL offsets [%s] with cutting '%s' but [%s] with '%s'", i, x->size, la, na, lb, nb);
+        } else if ((x->nb_nal != y->nb_nal || memcmp(x->nal, y->nal, sizeof(uint64_t) * (size_t)x->nb_nal)) && !r_stale && !r_off) {
+            r_stale = true;
+            offsets_str(x, la, sizeof(la)); offsets_str(y, lb, sizeof(lb));
+            vh_violation_noabort(KEY("stale-nal-offsets"),
+                                 "access unit %zu (%zu octets, %d NAL units): the offset attributes are [%s] with cutting '%s' and [%s] with '%s': "
+                                 "beyond the real NAL starts, offsets of an earlier access unit carved from the same input buffer were left behind",
+                                 i, x->size, vx + 1, la, na, lb, nb);
+        }
+        if (x->header_size != y->header_size && !r_hs) {
+            r_hs = true;
+            vh_violation_noabort(KEY("header-size"), "access unit %zu: header size %" PRIu64 " with cutting '%s', %" PRIu64 " with '%s'", i, x->header_size, na, y->header_size, nb);
+        }
+        if (x->attr_hash != y->attr_hash && !r_attr) {
+            r_attr = true;
+            vh_violation_noabort(KEY("attributes"), "access unit %zu: other attributes differ between cuttings '%s' and '%s'", i, na, nb);
+        }
     }
+#undef KEY
 }
 
-static void case_framer(struct vh_rng *r, bool h265)
+static void case_framer(struct vh_rng *r, bool h265, bool sc3_start)
 {
     const char *codec = h265 ? "h265" : "h264";
     char key[64];
@@ -786,7 +866,7 @@ static void case_framer(struct vh_rng *r, bool h265)
     uint32_t kind = vh_below(r, 100);
     bool clean = false;
     int nrep = 0;
-    if (!h265 && kind < 12) {
+    if (!h265 && kind < 12 && !sc3_start) {
         /* recorded stream of the repo, repeated */
         nrep = 1 + vh_below(r, 3);
         for (int i = 0; i < nrep; i++) {
@@ -795,8 +875,8 @@ static void case_framer(struct vh_rng *r, bool h265)
         }
         VH_COUNT("framer.recorded_stream_cases");
     } else {
-        e = gen_es(r, h265, 1 + vh_below(r, 7));
-        if (kind < 60) clean = true;
+        e = gen_es(r, h265, 1 + vh_below(r, 7), sc3_start);
+        if (kind < 60 || sc3_start) clean = true;
         else {
             /* NAL level mutation: drop, duplicate, truncate, swap */
             int m = 1 + vh_below(r, 3);
@@ -823,6 +903,14 @@ static void case_framer(struct vh_rng *r, bool h265)
         }
         if (!clean && vh_chance(r, 1, 6)) { uint8_t g[8]; size_t gn = 1 + vh_below(r, 8); for (size_t i = 0; i < gn; i++) g[i] = (uint8_t)(vh_rand(r) | 1); tsl_buf_put(in, g, gn); VH_COUNT("framer.garbage_prefix"); }
         es_bytes(e, in, au_off);
+    }
+    if (e && vh_opts.verbose) {
+        char lst[600] = "";
+        for (int k = 0; k < e->nnal && strlen(lst) < 560; k++) {
+            for (int a = 0; a < e->nau; a++) if (e->aus[a].first == k) strcat(lst, "| ");
+            snprintf(lst + strlen(lst), sizeof(lst) - strlen(lst), "%d/%d:%zu ", e->nals[k].type, e->nals[k].sc, e->nals[k].n);
+        }
+        vh_tr("nals(type/startcode:size) %s", lst);
     }
     h = vh_hash_bytes(h, in->p, in->n);
     vh_tr("%s framer stream=%zu clean=%d recorded=%d head=[%s] tail=[%s]", codec, in->n, clean, nrep,
@@ -854,19 +942,19 @@ static void case_framer(struct vh_rng *r, bool h265)
         if (st > 0) vh_count_dyn("framer.%s.output_with_inserted_nals", codec);
         vh_count_dyn("framer.%s.outputs_contained", codec);
     }
-    /* NAL offsets point at NAL starts of the output */
+    /* the NAL offsets cover the NAL starts of the unit */
     for (size_t i = 0; i < first->n; i++) {
         struct tsl_rec *o = &first->recs[i];
-        for (int k = 0; k < o->nb_nal; k++) {
-            uint64_t v = o->nal[k];
-            bool ok = v + 3 <= o->size && o->data[v] == 0 && o->data[v + 1] == 0 &&
-                      (o->data[v + 2] == 1 || (v + 4 <= o->size && o->data[v + 2] == 0 && o->data[v + 3] == 1));
-            if (!ok) {
-                snprintf(key, sizeof(key), "c17:%s:nal-offsets", codec);
-                vh_violation(key, "access unit %zu: NAL offset %d = %" PRIu64 " does not point at a start code (unit of %zu octets)", i, k, v, o->size);
-            }
+        bool ok; int want;
+        int nr = real_offsets(o, &ok, &want);
+        if (!ok) {
+            char la[240];
+            offsets_str(o, la, sizeof(la));
+            snprintf(key, sizeof(key), "c17:%s:nal-offsets", codec);
+            vh_violation(key, "access unit %zu (%zu octets) has %d NAL units after the first, but its NAL offsets are [%s] (first %d correct); unit: %s", i, o->size, want, la, nr, tsl_hex(o->data, o->size, 64));
         }
-        if (o->nb_nal) vh_count_dyn("framer.%s.nal_offsets_checked", codec);
+        if (has_stale_offsets(o, nr)) vh_count_dyn("framer.%s.units_with_stale_offsets", codec);
+        if (want) vh_count_dyn("framer.%s.nal_offsets_checked", codec);
     }
     /* completeness on clean generated streams */
     if (clean) {
@@ -927,7 +1015,7 @@ static void case_corrupt(struct vh_rng *r)
         for (size_t i = 0; i < n; i++) tsl_buf_put8(in, vh_chance(r, 1, 3) ? (uint8_t)vh_below(r, 2) : (uint8_t)vh_rand(r));
         VH_COUNT("corrupt.noise_streams");
     } else {
-        struct es *e = gen_es(r, h265, 1 + vh_below(r, 5));
+        struct es *e = gen_es(r, h265, 1 + vh_below(r, 5), false);
         es_bytes(e, in, au_off);
         if (!h265 && vh_chance(r, 1, 6)) { tsl_buf_put(in, h264_headers, sizeof(h264_headers)); tsl_buf_put(in, h264_pic, sizeof(h264_pic)); }
         int m = 1 + vh_below(r, 6);
@@ -962,10 +1050,11 @@ static void run_case(struct vh_rng *r)
     else if (!strcmp(m, "h264")) c = 50;
     else if (!strcmp(m, "h265")) c = 70;
     else if (!strcmp(m, "corrupt")) c = 90;
+    else if (!strcmp(m, "startcode3")) { VH_COUNT("framer.stream_starting_with_3_octet_start_code"); case_framer(r, vh_chance(r, 1, 2), true); return; }
     if (c < 20) case_convert(r);
     else if (c < 50) case_golomb(r);
-    else if (c < 68) case_framer(r, false);
-    else if (c < 86) case_framer(r, true);
+    else if (c < 68) case_framer(r, false, false);
+    else if (c < 86) case_framer(r, true, false);
     else case_corrupt(r);
     if (tsl_ev.fatal) VH_ADD("probe.fatal_events", tsl_ev.fatal);
 }
